@@ -21,7 +21,7 @@
 
    Lineage ([lrec] lists) is ghost state: it records through which parent-side
    referrals a piece of state was learned; no executable decision looks at it. *)
-From Sdns Require Import Common.Base Gen.C08.
+From Sdns Require Import Common.Base Gen.C08 Common.GoList.
 Open Scope Z_scope.
 
 (* ------------------------------------------------------------------ names *)
@@ -441,3 +441,30 @@ Definition derived_end (st : state) (tree : N) (now ttl : Z) : Z :=
    TTL" of the DS set validation retained ([r_ds_ttl]) *)
 Definition rrset_min_ttl (ttls : list Z) : Z :=
   match ttls with [] => 0 | x :: r => fold_left Z.min r x end.
+
+(* ------------------------------------------------- the referral's NS RRset (Resolver.extractDelegationInfo) *)
+
+(* what the loop over the authority section looks at: an SOA, an NS record (owner, class, TTL), anything else.  The
+   FIRST NS record anchors the RRset (owner, class, TTL: [deleg_anchor], hand-copied from the three assignments of that
+   branch - the translator cannot express its `info.nsRecord == nil` test); every later iteration is [deleg_step]:
+   an NS record of another owner (compared under ASCII case folding) or class marks the referral incoherent and is
+   ignored, one of the anchored RRset lowers the lease TTL to the minimum, an SOA is noted *)
+Inductive rrk :=
+| KSoa
+| KNs (owner : list N) (class ttl : N)
+| KOther.
+Record dinfo := mk_dinfo { di_owner : list N; di_class : N; di_ttl : N; di_soa : bool; di_incoh : bool }.
+Definition deleg_step (d : dinfo) (k : rrk) : dinfo :=
+  match k with
+  | KSoa => mk_dinfo (di_owner d) (di_class d) (di_ttl d) true (di_incoh d)
+  | KNs o c t =>
+      if negb (go_equal_fold_ascii o (di_owner d)) || negb (c =? di_class d)%N
+      then mk_dinfo (di_owner d) (di_class d) (di_ttl d) (di_soa d) true
+      else mk_dinfo (di_owner d) (di_class d) (if (t <? di_ttl d)%N then t else di_ttl d) (di_soa d) (di_incoh d)
+  | KOther => d
+  end.
+
+Definition deleg_anchor (soa : bool) (owner : list N) (class ttl : N) : dinfo := mk_dinfo owner class ttl soa false.
+(* nsInfo.nsTTL of a referral whose NS records (one owner, one class) carry the TTLs x :: r *)
+Definition ns_rrset_ttl (x : Z) (r : list Z) : Z :=
+  Z.of_N (di_ttl (fold_left deleg_step (map (fun t => KNs [] 1 (Z.to_N t)) r) (deleg_anchor false [] 1 (Z.to_N x)))).
